@@ -592,8 +592,17 @@ void Monitor::on_service_begin()
         bool in_progress = false;
         for (auto &r : evs)
                 in_progress |= r.total > 0 && r.remaining < r.total && r.remaining > 0;
-        if (!in_progress && popped_possible < accepted)
-                popped_possible++;
+        if (in_progress || popped_possible >= accepted)
+                return;
+        // events that end without any observable effect may all be consumed in one call (an implementation is free
+        // to loop over them); at most one event with observable processing can start per call
+        for (uint64_t id = popped_possible; id < accepted; id++) {
+                popped_possible = id + 1;
+                size_t k = (size_t)(id - ev_base);
+                bool silent = id >= ev_base && k < evs.size() && evs[k].total == 0;
+                if (!silent)
+                        break;
+        }
 }
 
 void Monitor::on_service_end(int status)
